@@ -35,8 +35,9 @@ func idKey(v ssa.Value) any {
 }
 
 // ltPC: the conditions at block b imply id < PartitionCount.
-func ltPC(id ssa.Value, b *ssa.BasicBlock) bool {
-	key := idKey(id)
+func ltPC(id ssa.Value, b *ssa.BasicBlock) bool { return ltPCKey(idKey(id), b) }
+
+func ltPCKey(key any, b *ssa.BasicBlock) bool {
 	for _, c := range core.Conditions(b) {
 		bin, ok := c.Val.(*ssa.BinOp)
 		if !ok || !core.IsCompare(bin.Op) {
@@ -110,8 +111,13 @@ func (pc *partIDChecker) safe(id ssa.Value, b *ssa.BasicBlock, depth int) (bool,
 	case *ssa.UnOp:
 		if x.Op == token.MUL {
 			if fa, ok := x.X.(*ssa.FieldAddr); ok {
-				if ok, why := pc.fieldValidatedByHelper(fa, b); ok {
+				if ok, why := pc.fieldValidatedByHelper(fa.X, fa.Field, b); ok {
 					return true, why
+				}
+				if par, isPar := fa.X.(*ssa.Parameter); isPar && depth < 4 {
+					if ok, why := pc.paramFieldSafe(par, fa.Field, depth); ok {
+						return true, why
+					}
 				}
 			}
 		}
@@ -325,7 +331,52 @@ func reachesBlock(from, target *ssa.BasicBlock) bool {
 
 // fieldValidatedByHelper: id = base.F, and a call H(base) with nil error dominates b
 // where H compares param.F with PartitionCount and fails otherwise.
-func (pc *partIDChecker) fieldValidatedByHelper(fa *ssa.FieldAddr, b *ssa.BasicBlock) (bool, string) {
+// paramFieldSafe: the id is the field of a struct handed in as a parameter; every static
+// caller must have validated that field of its argument before the call.
+func (pc *partIDChecker) paramFieldSafe(par *ssa.Parameter, field int, depth int) (bool, string) {
+	fn := par.Parent()
+	obj, _ := fn.Object().(*types.Func)
+	if obj == nil {
+		return false, ""
+	}
+	idx := -1
+	for i, q := range fn.Params {
+		if q == par {
+			idx = i
+		}
+	}
+	sites, okAll := 0, true
+	for _, caller := range pc.r.P.FuncList {
+		for _, sf := range core.AllSSA(caller.SSA) {
+			core.Instrs(sf, func(in ssa.Instruction) {
+				c, ok := in.(ssa.CallInstruction)
+				if !ok || c.Common().IsInvoke() || core.CalleeObj(c) != obj || idx >= len(c.Common().Args) {
+					return
+				}
+				sites++
+				a := c.Common().Args[idx]
+				if ltPCKey(fieldKey{a, field}, in.Block()) {
+					return
+				}
+				if ok, _ := pc.fieldValidatedByHelper(a, field, in.Block()); ok {
+					return
+				}
+				if ap, isPar := a.(*ssa.Parameter); isPar && depth < 3 {
+					if ok, _ := pc.paramFieldSafe(ap, field, depth+1); ok {
+						return
+					}
+				}
+				okAll = false
+			})
+		}
+	}
+	if sites > 0 && okAll {
+		return true, fmt.Sprintf("field of a parameter: all %d static callers validated it before the call", sites)
+	}
+	return false, ""
+}
+
+func (pc *partIDChecker) fieldValidatedByHelper(base ssa.Value, field int, b *ssa.BasicBlock) (bool, string) {
 	p := pc.r.P
 	pt := passThrough(p)
 	for _, c := range core.Conditions(b) {
@@ -341,13 +392,13 @@ func (pc *partIDChecker) fieldValidatedByHelper(fa *ssa.FieldAddr, b *ssa.BasicB
 			}
 			args := call.Call.Args
 			for ai, a := range args {
-				if a != fa.X || ai >= len(h.SSA.Params) {
+				if a != base || ai >= len(h.SSA.Params) {
 					continue
 				}
 				par := h.SSA.Params[ai]
 				isF := func(v ssa.Value) bool {
 					k, ok := idKey(v).(fieldKey)
-					return ok && k.base == ssa.Value(par) && k.field == fa.Field
+					return ok && k.base == ssa.Value(par) && k.field == field
 				}
 				for _, ifi := range core.FindCmpIfs(h.SSA, isF, isPC) {
 					taken, _ := core.CmpTaken(ifi, isF, isPC)
